@@ -433,6 +433,51 @@ func c18(tier string) int {
 			}
 		}
 	}
+	// Tiles are raw hashes: any first byte is legitimate. Small trees whose first
+	// leaf is searched so that the first tile begins with a byte that
+	// content-sniffing code treats specially ('<' of markup, '{' '[' of JSON, a
+	// UTF-8 BOM, white space, NUL, '#', '%'); every step 1..7 -> 8 must be fed
+	// with a proof the reference accepts.
+	for _, b0 := range []byte{'<', '{', '[', ' ', '\n', '\t', '\r', 0xEF, 0x00, '#', '%', '-', 0xFF} {
+		var data [][]byte
+		for i := 0; ; i++ {
+			d := []byte(fmt.Sprintf("verif: sniffed leaf %d", i))
+			if h := tlog.RecordHash(d); h[0] == b0 {
+				data = append(data, d)
+				break
+			}
+		}
+		for i := 1; i < 8; i++ {
+			data = append(data, []byte(fmt.Sprintf("verif: sniffed tree %02x leaf %d", b0, i)))
+		}
+		tree := ref6962.NewTree(data)
+		sv := &sumdbServer{}
+		for i, d := range data {
+			hs, err := tlog.StoredHashes(int64(i), d, sv)
+			if err != nil {
+				ev.Internal("StoredHashes: %v", err)
+			}
+			sv.hashes = append(sv.hashes, hs...)
+		}
+		root := func(n int) []byte { r := tree.Root(n); return r[:] }
+		for from := 1; from < 8; from++ {
+			srv := &sumdbServer{hashes: sv.hashes, size: 8, latest: u.Sign(uni.Body(origin, 8, root(8)), u.K1.Signer)}
+			sw := &c18Witness{latest: u.Sign(uni.Body(origin, uint64(from), root(from)), u.K1.Signer, u.W1.CosigSigner)}
+			ctx, release := wh.NoRetryContext(context.Background())
+			err := c18FeedLog(ctx, cl, sw, &http.Client{Transport: srv}, 0)
+			release()
+			cycles++
+			run.Add("feed_cycles_on_trees_with_a_chosen_first_tile_byte", 1)
+			ok := false
+			if err == nil && sw.calls == 1 {
+				ok, _ = ref6962.Verify(uint64(from), 8, sw.proof, root(from), root(8))
+			}
+			if !ok {
+				run.Report(fmt.Sprintf("feed-failed first-tile-byte=0x%02x", b0), fmt.Sprintf("a log whose first hash tile begins with byte 0x%02x: feeding %d -> 8 over a correct SumDB-style server failed (err=%v, Update calls=%d, proof accepted by the reference: %v)", b0, from, err, sw.calls, ok), map[string]any{"kind": "sumdb-sniff", "byte": int(b0), "from": from})
+				break
+			}
+		}
+	}
 	// Polling mode: ONE FeedLog call (interval > 0) follows the log through
 	// several growths (whatever the feeder keeps between cycles - clients,
 	// contexts, readers - must keep working).
@@ -519,7 +564,7 @@ func c18(tier string) int {
 	run.Set("evaluations", evals)
 	run.Set("distinct_nontrivial", int(evals))
 	run.Set("exhaustive", true)
-	run.Set("rule", fmt.Sprintf("base URLs: host only, and (reduced coordinate set / pairs up to 40 + tile boundaries + the large pairs) with a one- and a two-segment path component - every request must stay below the base; addressing: for every level 0..7, every index 0..2100 plus every carry boundary of the x%%03d encoding up to 10^9 (+-1), widths 1..256 (all widths on indices <= 40 and around multiples of 1000, 8 boundary widths elsewhere): the path requested by SumDBClient.TileData / FullLeavesAtOffset / PartialLeavesAtOffset (observed at the HTTP transport) equals tlog.Tile.Path(). Polling: one FeedLog call follows five growths, two of them after an outage of seven 503 answers. Proofs: the real sumdb.FeedLog (interval 0) for ALL pairs 1 <= from < to <= %d plus 59 pairs reaching up to 70 000 leaves (full tiles above level 0, the same tile index at two levels within one proof) against an in-process server that serves /latest and tlog tiles of a generated tree and rejects any tile that does not exist at that size or is requested with a wrong width; the proof handed to the witness must verify with the independent RFC 6962 reference and merkle/proof, and (boundary pairs and every 7th pair) be accepted by the real witness. distinct_nontrivial = coordinates + feed cycles, all distinct by construction", maxN))
+	run.Set("rule", fmt.Sprintf("base URLs: host only, and (reduced coordinate set / pairs up to 40 + tile boundaries + the large pairs) with a one- and a two-segment path component - every request must stay below the base; addressing: for every level 0..7, every index 0..2100 plus every carry boundary of the x%%03d encoding up to 10^9 (+-1), widths 1..256 (all widths on indices <= 40 and around multiples of 1000, 8 boundary widths elsewhere): the path requested by SumDBClient.TileData / FullLeavesAtOffset / PartialLeavesAtOffset (observed at the HTTP transport) equals tlog.Tile.Path(). Content: 13 eight-leaf trees whose first tile begins with '<', '{', '[', white space, a BOM byte, NUL, '#', '%', '-', 0xFF - every step k -> 8. Polling: one FeedLog call follows five growths, two of them after an outage of seven 503 answers. Proofs: the real sumdb.FeedLog (interval 0) for ALL pairs 1 <= from < to <= %d plus 59 pairs reaching up to 70 000 leaves (full tiles above level 0, the same tile index at two levels within one proof) against an in-process server that serves /latest and tlog tiles of a generated tree and rejects any tile that does not exist at that size or is requested with a wrong width; the proof handed to the witness must verify with the independent RFC 6962 reference and merkle/proof, and (boundary pairs and every 7th pair) be accepted by the real witness. distinct_nontrivial = coordinates + feed cycles, all distinct by construction", maxN))
 	return run.Finish()
 }
 
